@@ -14,6 +14,7 @@ CONSTANTS
   FixA = TRUE
   FixH = TRUE
   OrdCurrent = "Acquire"
+  Scenario = ""
   Mutant = ""
 CONSTRAINT Publish
 POSTCONDITION Accepted
